@@ -1,8 +1,11 @@
 #!/bin/bash
-# Build the whole Lean side (models, lemmas, property theorems, every driver executable) offline.
-set -e
-cd "$(dirname "$0")/lean"
-lake build LdarModel
+# Build the whole Lean side offline: models, lemmas, property theorems of every claimed check
+# (LdarModel.lean imports them) and every driver executable.  Each check rebuilds its own targets
+# again (no-op when up to date), so a driver that fails to build here only fails its own check.
+cd "$(dirname "$0")/lean" || exit 1
+lake build LdarModel || { echo "setup: library build failed"; exit 1; }
 exes=$(grep -E '^name = "drv_' lakefile.toml | sed 's/name = "\(.*\)"/\1/')
-lake build $exes
+for e in $exes; do
+  lake build "$e" >/dev/null 2>&1 || echo "setup: driver $e did not build (its check will report it)"
+done
 echo "setup ok"
